@@ -9,7 +9,7 @@ import re
 
 from vivarium.library.dict_utils import (
     deep_merge, deep_merge_multi_update, merge_variable_updates,
-    copy_dicts)
+    copy_dicts, is_variable_update)
 
 
 def get_in(d, path, default=None):
@@ -245,7 +245,9 @@ def inverse_topology(outer, update, topology, inverse=None, multi_updates=True):
 
         elif key in update:
             value = update[key]
-            if isinstance(path, dict) and not isinstance(value, dict):
+            if isinstance(path, dict) and (
+                    not isinstance(value, dict)
+                    or is_variable_update(value)):
                 # a variable wired by a dictionary that only names its
                 # node: the same as wiring it by that path
                 path = tuple(path.get('_path', ()))
